@@ -80,7 +80,11 @@ where
     .map(|s| extract_middle_segments(s, prefix_len, suffix_len, "_"))
     .collect::<Vec<_>>();
 
-  if all_non_empty_and_unique(&simplified) {
+  // The trimmed ids become method and type names: one that would start with a digit
+  // (`get_item_1`, `get_item_2` => `1`, `2`) is not an identifier, so nothing is trimmed then.
+  let starts_like_identifier = |s: &String| !s.starts_with(|c: char| c.is_ascii_digit());
+
+  if all_non_empty_and_unique(&simplified) && simplified.iter().all(starts_like_identifier) {
     simplified
   } else {
     to_owned()
